@@ -147,6 +147,26 @@ def feq(a, b, rtol=1e-9, atol=1e-12):
     return a == b
 
 
+def xeq(a, b):
+    """EXACT structural equality: same types, floats bit for bit (nan == nan, 0.0 != -0.0), arrays by dtype and bytes."""
+    if isinstance(a, dict) or isinstance(b, dict):
+        return isinstance(a, dict) and isinstance(b, dict) and set(a) == set(b) and all(xeq(a[k], b[k]) for k in a)
+    if isinstance(a, (list, tuple)) or isinstance(b, (list, tuple)):
+        return type(a) is type(b) and len(a) == len(b) and all(xeq(p, q) for p, q in zip(a, b))
+    if isinstance(a, np.ndarray) or isinstance(b, np.ndarray):
+        return isinstance(a, np.ndarray) and isinstance(b, np.ndarray) and a.dtype == b.dtype and a.shape == b.shape \
+            and a.tobytes() == b.tobytes()
+    if type(a) is not type(b):
+        return False
+    if isinstance(a, (float, np.floating)):
+        return vc.f2h(a) == vc.f2h(b)
+    return a == b
+
+
+def obs_xdiff(a, b):
+    return [k for k in ('fitted', 'override', 'to_dict') + QKEYS if not xeq(a[k], b[k])]
+
+
 def const_override(m):
     """the constant value if the four bound methods are the constant overrides, None if none is,
     'partial' otherwise."""
@@ -1294,6 +1314,15 @@ def prototypes():
         (U.Univariate, [], {'candidates': [U.GaussianUnivariate], 'random_state': 0}),
         (GaussianMultivariate, [], {'distribution': U.GaussianUnivariate, 'random_state': 0}),
         (VineCopula, ['center'], {'random_state': 0}), (VineCopula, [], {'vine_type': 'direct', 'random_state': 0}),
+        # option values that are not representable in float32 (a clone must carry them exactly), keyword / positional / mixed
+        (U.TruncatedGaussian, [], {'minimum': 0.1, 'maximum': 0.9}, {'kind': 'uniform', 'a': 0.15, 'b': 0.85, 'n': 40, 'seed': 51}),
+        (U.TruncatedGaussian, [0.1, 0.9], {}, {'kind': 'uniform', 'a': 0.15, 'b': 0.85, 'n': 40, 'seed': 52}),
+        (U.TruncatedGaussian, [1 / 3], {'maximum': 12345.678901234}, {'kind': 'uniform', 'a': 1.0, 'b': 11.0, 'n': 40, 'seed': 53}),
+        (U.TruncatedGaussian, [], {'minimum': 1e-9, 'maximum': 0.7}, {'kind': 'uniform', 'a': 0.05, 'b': 0.65, 'n': 40, 'seed': 54}),
+        (U.TruncatedGaussian, [], {'minimum': -0.3}, {'kind': 'uniform', 'a': -0.25, 'b': 0.65, 'n': 40, 'seed': 55}),
+        (U.GaussianKDE, [], {'bw_method': 0.3}), (U.GaussianKDE, [None, None, 0.7], {}),
+        (U.GaussianKDE, [20], {'bw_method': 1 / 3}), (U.GaussianKDE, [], {'bw_method': 0.1, 'weights': np.linspace(0.1, 0.7, 40)}),
+        (GaussianMultivariate, [], {'distribution': U.GaussianKDE(bw_method=0.3)}),
     ]
     return [p if len(p) == 4 else p + (None,) for p in ps]
 
@@ -1380,7 +1409,7 @@ def check_get_instance(ctx, lean):
             leak = fresh_state(g)
             if leak or f['fitted'] != '0' or f['state'] != 'none':
                 problems.append('fit-state:' + ','.join(leak))
-            if not feq(config_view(g), config_view(want)):
+            if not xeq(config_view(g), config_view(want)):
                 problems.append('options')
             if (f['stored'] == 'yes') != hasattr(g, '__args__'):
                 problems.append('stored-args')
@@ -1400,9 +1429,12 @@ def check_get_instance(ctx, lean):
                     warnings.simplefilter('ignore')
                     like = cls(*copy.deepcopy(pos), **copy.deepcopy(kw))
                 key = 'get_instance:falsy-option-lost' if falsy_given else 'get_instance:options-not-reproduced'
-                config_lost = not feq(config_view(g), config_view(like))
+                vg, vl = config_view(g), config_view(like)
+                config_lost = not xeq(vg, vl)          # exact: same value, same type, every stored option
                 if config_lost:
-                    lost = sorted(k for k in config_view(like) if not feq(config_view(like)[k], config_view(g).get(k)))
+                    lost = sorted(k for k in vl if not xeq(vl[k], vg.get(k)))
+                    if all(vg.get(k) is not None and vl[k] is not None and feq(vl[k], vg.get(k), rtol=1e-3) for k in lost):
+                        key = 'get_instance:option-value-altered'      # still there, but not the value (or type) given
                     if not hasattr(proto, '__args__'):
                         lossy.setdefault(cls.__name__, lost)
                     else:
@@ -1424,12 +1456,13 @@ def check_get_instance(ctx, lean):
                             outs.append('raised ' + type(e).__name__)
                     ctx.case(('clone-behaviour', cls.__name__, repr(pos), repr(sorted(kw))))
                     ctx.count('clone:fitted-behaviour-compared')
+                    # same code on the same data with the same options: bit for bit
                     same = (outs[0] == outs[1]) if (is_mv or isinstance(outs[0], str) or isinstance(outs[1], str)) \
-                        else obs_equal(outs[0], outs[1])
+                        else not obs_xdiff(outs[0], outs[1])
                     if not same and not config_lost:
                         key = 'get_instance:clone-fits-differently'
                     if not same:
-                        diff = obs_diff(outs[0], outs[1]) if isinstance(outs[0], dict) and isinstance(outs[1], dict) else 'to_dict/raised'
+                        diff = obs_xdiff(outs[0], outs[1]) if isinstance(outs[0], dict) and isinstance(outs[1], dict) else 'to_dict/raised'
                         ctx.fail_input('copulas.utils.get_instance', dict(where, falsy_options_given=falsy_given, fit_data=fit_desc or 'A'),
                                        {'differs': diff, 'clone': _brief(outs[0]) if isinstance(outs[0], dict) else str(outs[0])[:200],
                                         'directly_constructed': _brief(outs[1]) if isinstance(outs[1], dict) else str(outs[1])[:200]},
@@ -1498,22 +1531,25 @@ def check_clone_indirect(ctx):
     import copulas.univariate as U
     from copulas.multivariate import GaussianMultivariate
     bad = None
-    cases = [({'minimum': 0, 'maximum': 12}, (1.0, 11.0)), ({'maximum': 0}, (-9.0, -1.0)), ({'minimum': 0.0}, (1.0, 11.0)),
-             ({'minimum': -50.0, 'maximum': 90.0}, (1.0, 11.0))]
-    for kw, (lo, hi) in cases:
+    TG, KDE = U.TruncatedGaussian, U.GaussianKDE
+    cases = [(TG, {'minimum': 0, 'maximum': 12}, (1.0, 11.0)), (TG, {'maximum': 0}, (-9.0, -1.0)), (TG, {'minimum': 0.0}, (1.0, 11.0)),
+             (TG, {'minimum': -50.0, 'maximum': 90.0}, (1.0, 11.0)),
+             (TG, {'minimum': 0.1, 'maximum': 0.9}, (0.15, 0.85)), (TG, {'minimum': 1 / 3, 'maximum': 12345.678901234}, (1.0, 11.0)),
+             (KDE, {'bw_method': 0.3}, (1.0, 11.0)), (KDE, {'bw_method': 0.7}, (1.0, 11.0))]      # no sample_size here: a resampling fit draws from the stream GM.fit shares across columns
+    for PC, kw, (lo, hi) in cases:
         rs = np.random.RandomState(41)
         frame = pd.DataFrame({'a': rs.uniform(lo, hi, 40), 'b': rs.uniform(lo, hi, 40)})
         direct = {}
         for c in frame:
-            d = U.TruncatedGaussian(**kw)
+            d = PC(**kw)
             _quiet(fit_pinned, d, frame[c], 7)      # a Series, as GaussianMultivariate passes it (Series.std is ddof=1)
             direct[c] = observe(d)
         routes = {
-            'GaussianMultivariate(distribution=<instance>)': lambda: GaussianMultivariate(distribution=U.TruncatedGaussian(**kw)),
+            'GaussianMultivariate(distribution=<instance>)': lambda: GaussianMultivariate(distribution=PC(**kw)),
             'GaussianMultivariate(distribution={col: <instance>})':
-                lambda: GaussianMultivariate(distribution={c: U.TruncatedGaussian(**kw) for c in frame}),
+                lambda: GaussianMultivariate(distribution={c: PC(**kw) for c in frame}),
             'GaussianMultivariate(distribution=Univariate(candidates=[<instance>]))':
-                lambda: GaussianMultivariate(distribution=U.Univariate(candidates=[U.TruncatedGaussian(**kw)])),
+                lambda: GaussianMultivariate(distribution=U.Univariate(candidates=[PC(**kw)])),
         }
         for label, mk in routes.items():
             try:
@@ -1522,24 +1558,29 @@ def check_clone_indirect(ctx):
             except Exception:  # noqa
                 ctx.count('clone-indirect:fit-raised')
                 continue
-            ctx.case(('clone-indirect', label, repr(kw)))
+            ctx.case(('clone-indirect', label, PC.__name__, repr(kw)))
             ctx.count('clone-indirect:compared')
             for c, uni in zip(gm.columns, gm.univariates):
                 got = observe(uni)
                 got['fitted'] = True
                 if type(uni).__name__ == 'Univariate':
                     uni = uni._instance
-                if type(uni).__name__ != 'TruncatedGaussian':
+                if type(uni) is not PC:
                     continue            # the fallback / another candidate was selected: nothing to compare
-                if not obs_equal(got, direct[c]):
+                dd = obs_xdiff(got, direct[c])       # same code, same data, same options: bit for bit
+                if dd:
                     falsy = sorted(k for k, v in kw.items() if not v)
-                    key = 'get_instance:falsy-option-lost' if falsy else 'get_instance:options-not-reproduced'
-                    ctx.fail_input('copulas.utils.get_instance', {'route': label, 'marginal': f'TruncatedGaussian(**{kw})', 'column': c,
+                    want = config_view(PC(**kw))
+                    close = all(config_view(uni).get(k) is not None and feq(want[k], config_view(uni).get(k), rtol=1e-3)
+                                for k in want if want[k] is not None)
+                    key = 'get_instance:falsy-option-lost' if falsy and not obs_equal(got, direct[c]) and not close else \
+                        'get_instance:option-value-altered' if close else 'get_instance:options-not-reproduced'
+                    ctx.fail_input('copulas.utils.get_instance', {'route': label, 'marginal': f'{PC.__name__}(**{kw})', 'column': c,
                                                                    'data': f'uniform({lo},{hi}) n=40 seed=41'},
-                                   {'differs': obs_diff(got, direct[c]), 'marginal_in_model': _brief(got), 'bounds_in_model':
-                                    [uni.min, uni.max], 'directly_fitted': _brief(direct[c])},
-                                   'a marginal built from an instance prototype is configured like the prototype', key)
-                    bad = bad or {'route': label, 'kwargs': kw, 'column': c, 'differs': obs_diff(got, direct[c])}
+                                   {'differs': dd, 'marginal_in_model': _brief(got), 'options_in_model': config_view(uni),
+                                    'options_given': want, 'directly_fitted': _brief(direct[c])},
+                                   'a marginal built from an instance prototype is configured exactly like the prototype', key)
+                    bad = bad or {'route': label, 'class': PC.__name__, 'kwargs': kw, 'column': c, 'differs': dd}
                     break
     ctx.ob('oracle:get_instance-indirect', bad is None, 'tie', bad or 'ok')
 
